@@ -124,7 +124,7 @@ def replay_known(ctx):
 
 
 def run(ctx):
-    built, worlds, results = common.common_prelude(ctx, ctx.pid, 60, 600)
+    built, worlds, results = common.common_prelude(ctx, ctx.pid, 40, 600)
     common.stream_csys(ctx, worlds, results)
     common.stream_plan(ctx, worlds, results)
     common.run_sat_monitor(ctx, worlds, results)
@@ -147,7 +147,7 @@ def run(ctx):
         ctx.broken.append({"kind": "correspondence", "name": "S-obj", "detail": str(e)[-800:]})
 
     # ---- S-opt: real solver vs exhaustive optimum of the specification on tiny instances
-    n = 40 if ctx.tier == "quick" else 700
+    n = 30 if ctx.tier == "quick" else 700
     tiny = [gen_tiny(ctx.rng, ctx.tier != "quick") for _ in range(n)]
     tres = common.run_worlds(tiny, probe=False)
     cases, where = [], []
